@@ -22,7 +22,7 @@ type UnitResult struct {
 }
 
 func (p *Program) newExec(pkg *Pkg, ct *Contract, unit string) *Exec {
-	x := &Exec{prog: p, pkg: pkg, d: newDecls(), unit: unit, notes: map[string]bool{}, opts: map[string]string{}, contract: ct, usedAxioms: map[*Lemma]bool{}}
+	x := &Exec{prog: p, pkg: pkg, d: newDecls(), unit: unit, notes: map[string]bool{}, opts: map[string]string{}, contract: ct, usedAxioms: map[*Lemma]bool{}, hitAnchors: map[string]bool{}}
 	x.d.declareConst("alloc0", "(Array Int Bool)")
 	x.d.axioms = append(x.d.axioms, "(not (select alloc0 0))")
 	if ct != nil {
@@ -185,6 +185,12 @@ func (x *Exec) runUnit(recvList *ast.FieldList, ftype *ast.FuncType, body *ast.B
 			}
 		}
 	}
+	for _, b := range ct.Binds {
+		// logical variable: names the entry value of an expression
+		v := x.specEval(st, b.Expr, env)
+		g := x.ghostGet(st, b.Name)
+		st.ghost[b.Name] = T{S: v.S, Ty: g.Ty}
+	}
 	for _, r := range ct.Requires {
 		st.assume(x.specEval(st, r.Expr, env).S)
 	}
@@ -234,7 +240,11 @@ func (x *Exec) runUnit(recvList *ast.FieldList, ftype *ast.FuncType, body *ast.B
 				}
 			}
 		}
-		x.frameObligations(rs, fr, ct, penv, j+1)
+		if ct.Opts["noframe"] == "" {
+			x.frameObligations(rs, fr, ct, penv, j+1)
+		} else {
+			x.note("frame of %s is not verified (opt noframe): no verified caller relies on it", x.unit)
+		}
 		// locks must be released
 		for k := range rs.held {
 			if fr.entry.held[k] == "" {
@@ -245,6 +255,12 @@ func (x *Exec) runUnit(recvList *ast.FieldList, ftype *ast.FuncType, body *ast.B
 	if len(fr.returns) == 0 {
 		x.note("no reachable return in %s", x.unit)
 	}
+	// an assert whose anchored call no longer exists cannot be discharged
+	for _, anchor := range sortedKeys(ct.Asserts) {
+		if !x.hitAnchors[anchor] {
+			x.oblige(fr.entry, "assert-anchor-missing:"+anchor, "assert", "false", body)
+		}
+	}
 }
 
 // frameObligations: heap fields and ghosts changed by the body must be covered
@@ -254,6 +270,9 @@ func (x *Exec) frameObligations(rs *State, fr *fnFrame, ct *Contract, penv *spec
 	allowedAll := map[string]bool{}
 	allowedObj := map[string][]string{}
 	ghostOK := map[string]bool{}
+	for _, b := range ct.Binds {
+		ghostOK[b.Name] = true
+	}
 	for _, m := range ct.Modifies {
 		txt := m.Text
 		switch {
